@@ -340,7 +340,7 @@ func init() {
 					simrt.Self().OpSeq = call
 					if pr.L.Disconnect(d.victim.Name) {
 						w.Fault("conn.drop")
-						d.drop = &RegOp{Kind: "drop", Peer: d.victim.Name, OK: true, Call: call, Return: w.Stamp(), Desc: "conn.drop"}
+						d.drop = &RegOp{Kind: "drop", Peer: d.victim.Name, OK: true, Call: d.victim.Conn.RemoveBeganAt, Return: w.Stamp(), Desc: "conn.drop"}
 					}
 				})
 			}
@@ -417,7 +417,7 @@ func init() {
 			}
 			w.ProbeN("sub-granted", granted)
 			w.ProbeN("unsub-ok", removed)
-			checkRegLinearizable(w, "C08", ops, false)
+			checkRegLinearizable(w, "C08", splitDrops(ops, d.pr.Peers), false)
 			checkFanout(w, "C08", d.pr, ops, d.dops)
 			// the harness's own subscription to the peers' node management is client side and
 			// produces no SubscriptionChange event on L
